@@ -190,6 +190,8 @@ def run_unit_shard(work, binpath, unit, tier, seed, shard, replay_fail=None, ext
             cmd += ["-rapid.steps=%d" % unit["steps"]]
         if replay_fail:
             cmd += ["-rapid.failfile=" + replay_fail]
+    if unit.get("kind") == "plain":
+        cmd.append("-test.v")
     if unit.get("cpus"):
         cmd += ["-test.cpu=%d" % unit["cpus"]]
     memlimit = unit.get("mem_kb", 12 * 1024 * 1024)
@@ -219,6 +221,9 @@ def run_unit_shard(work, binpath, unit, tier, seed, shard, replay_fail=None, ext
     wall = time.time() - t0
     verdict, detail = classify(p.returncode, out, timed_out)
     extra_cov = None
+    if unit.get("kind") == "plain":
+        npass = len(re.findall(r"^\s*--- PASS: ", out, re.M))
+        extra_cov = {"frozen_regression_cases_passed": npass, "extra_evaluations": npass}
     if unit.get("kind") == "fuzz":
         ex = re.findall(r"execs: (\d+)", out)
         ni = re.findall(r"new interesting: (\d+)", out)
@@ -414,7 +419,7 @@ def run_property(pid, tier, seed, replay=None, keep=False, only_unit=None):
         per_test = merge_stats(results)
         ev = build_evidence(pid, tier, seed, spec, per_test, results, nviol, time.time() - t_start, lines)
         os.makedirs(os.path.join(VERIF, "evidence"), exist_ok=True)
-        if not replay:
+        if not replay and not only_unit:
             tmp = os.path.join(VERIF, "evidence", ".%s.json.%d" % (pid, os.getpid()))
             json.dump(ev, open(tmp, "w"), indent=1, sort_keys=True)
             os.replace(tmp, os.path.join(VERIF, "evidence", "%s.json" % pid))
